@@ -125,10 +125,10 @@ type Scenario struct {
 	LatencyUS    int                   `json:"latency_us,omitempty"`
 	JitterUS     int                   `json:"jitter_us,omitempty"`
 	MemberTOMS   int                   `json:"member_to_ms,omitempty"` // spec replay: time-out of membership calls; virtual time passes before each one so that earlier futures have timed out
-	SnapWindow   bool                  `json:"snap_window,omitempty"` // replay of Raft.tla with Env:SnapWindow: takeSnapshot parks after publication
-	TickMS       int                   `json:"tick_ms,omitempty"`     // timed replay (RaftTimed.tla): virtual time per Tick
-	ETMS         int                   `json:"et_ms,omitempty"`       // election timeout (default 300)
-	LeaseMS      int                   `json:"lease_ms,omitempty"`    // lease duration (default 100)
+	SnapWindow   bool                  `json:"snap_window,omitempty"`  // replay of Raft.tla with Env:SnapWindow: takeSnapshot parks after publication
+	TickMS       int                   `json:"tick_ms,omitempty"`      // timed replay (RaftTimed.tla): virtual time per Tick
+	ETMS         int                   `json:"et_ms,omitempty"`        // election timeout (default 300)
+	LeaseMS      int                   `json:"lease_ms,omitempty"`     // lease duration (default 100)
 }
 
 type Runner struct {
